@@ -80,6 +80,52 @@ def slack_tripped_int(t: int, reads, thr: int) -> str:
     return 'slack_tripped_only_on_earlier_reads'
 
 
+TX_CHANGES = ['flip', 'flip', 'shift_boundary', 'drop_empty', 'add_field', 'add_empty', 'truncate']
+
+
+def gen_tx_change(rng):
+    """The transaction the validator sees is not the one that was signed."""
+    return {'kind': rng.choice(TX_CHANGES), 'a': rng.below(8), 'b': rng.below(4096)}
+
+
+def change_tx(sf: dict, spec: dict) -> dict:
+    """-> the validator's sigfields.  Some changes leave the signed message as it is
+    (a byte moved across the boundary of two adjacent present fields, an empty field
+    dropped or added, a change inside a field the signature's flag masks): the
+    reference model decides from the message alone, as the signature rule says."""
+    out = dict(sf)
+    keys = sorted(out)
+    if not keys:
+        return out
+    k = keys[spec['a'] % len(keys)]
+    kind = spec['kind']
+    if kind == 'flip':
+        v = out[k]
+        if v:
+            bit = spec['b'] % (len(v) * 8)
+            out[k] = v[:bit // 8] + bytes([v[bit // 8] ^ (1 << (bit % 8))]) + v[bit // 8 + 1:]
+        else:
+            out[k] = b'\x01'
+    elif kind == 'shift_boundary':
+        i = keys.index(k)
+        if i + 1 < len(keys) and out[k]:
+            n = keys[i + 1]
+            out[n] = out[k][-1:] + out[n]
+            out[k] = out[k][:-1]
+    elif kind == 'drop_empty':
+        for kk in keys:
+            if not out[kk] and len(out) > 1:
+                del out[kk]
+                break
+    elif kind in ('add_field', 'add_empty'):
+        free = [i for i in range(1, 9) if 'sigfield%d' % i not in out]
+        if free:
+            out['sigfield%d' % free[spec['a'] % len(free)]] = b'' if kind == 'add_empty' else b'extra'
+    elif kind == 'truncate':
+        out[k] = out[k][:-1]
+    return out
+
+
 def pick_bit(rng, nbits: int) -> int:
     """Which bit of a key, point, scalar or signature to flip: uniformly, but one time
     in three one of the structurally special ones -- the top bits of the (little-endian)
